@@ -177,6 +177,7 @@ struct Kernel {
     bool readable(File *f);
     // syscalls; "by" records who issued the call
     int k_pipe(int out[2], Owner by);
+    int k_open_plain(Owner by);   // a regular file: readable/writable, but epoll refuses it (EPERM)
     int k_close(int fd, Owner by);
     int k_dup(int fd, Owner by);
     int k_fcntl(int fd, int cmd, long arg, Owner by);
